@@ -185,6 +185,12 @@ PathLikeStr = _os.PathLike[str]
 CtxMgrInt = _contextlib.AbstractContextManager[int]
 
 
+class RealBox:
+    """Object whose attribute 'real' may again be a RealBox (chains for nested IsAttr validators)."""
+    def __init__(self, real): self.real = real
+    def __repr__(self): return f'RealBox({self.real!r})'
+
+
 class WithCtx:
     def __enter__(self): return 1
     def __exit__(self, *a): return None
